@@ -61,6 +61,9 @@ func (g *gen) script(nc, self, to, lead int, size int) string {
 		case x < 9:
 			if r.Intn(15) == 0 {
 				a = append(a, g.sized(fmt.Sprintf("p%d", tgt)))
+			} else if r.Intn(12) == 0 {
+				a = append(a, fmt.Sprintf("u%d", tgt))
+				g.h.Count("act:push-unmarshalable")
 			} else {
 				a = append(a, fmt.Sprintf("p%d", tgt))
 			}
@@ -136,6 +139,15 @@ func (g *gen) sweep() []string {
 				"go ms=3", "resume c=0", "go ms=3", "settle")
 		}
 	}
+	// a value the serializer rejects, pushed before / after the response (empty body, same path, same order)
+	for _, to := range []int{0, 1} {
+		g.h.Count("sweep:unmarshalable")
+		ops = append(ops, "reset n=2", fmt.Sprintf("req c=0 to=%d r=1/p0,u0,r,u0,u1,p0", to), "settle")
+	}
+	ops = append(ops, g.busyCloseCase(3, 0, 1, 0, 2)...)
+	ops = append(ops, g.busyCloseCase(4, 1, 3, 2, 0)...)
+	ops = append(ops, g.oddClientCase(0, 1, 1, false, 0, 1)...)
+	ops = append(ops, g.oddClientCase(1, 0, 2, true, 2, 2)...)
 	ops = append(ops, g.holdCase(1, 32000)...)
 	ops = append(ops, g.setCase(1)...)
 	ops = append(ops, g.setCase(2)...)
@@ -317,6 +329,13 @@ func (g *gen) genCase() []string {
 		return g.sizeCase(r.Intn(len(svcNames)), r.Intn(len(svcNames)), r.Intn(3) != 0, 4+r.Intn(30))
 	case x >= 97:
 		return g.faultCase(r.Intn(len(svcNames)), r.Intn(len(svcNames)), r.Intn(2) == 0, 1+r.Intn(3), r.Intn(2) == 0, 3+r.Intn(40))
+	case x >= 30 && x < 34:
+		nc := 3 + r.Intn(2)
+		victim := r.Intn(nc - 1)
+		req := (victim + 1 + r.Intn(nc-1)) % nc
+		return g.busyCloseCase(nc, victim, req, r.Intn(nc), r.Intn(len(svcNames)))
+	case x >= 34 && x < 37:
+		return g.oddClientCase(r.Intn(len(svcNames)), r.Intn(len(svcNames)), 1+r.Intn(2), r.Intn(3) == 0, r.Intn(4), 1+r.Intn(3))
 	case x < 2:
 		return g.stallCase(r.Intn(len(svcNames)), r.Intn(len(svcNames)), 10050+r.Intn(1500), r.Intn(200))
 	case x < 6:
@@ -332,12 +351,55 @@ func (g *gen) genCase() []string {
 	}
 }
 
+// a client goes away while the front's goroutine is busy (asleep inside a handler): its session is closed but
+// the RemoveSession the closing socket posted has not run yet when the front — and another service — issue
+// multi-target pushes whose id lists name the dead connection before live ones; the front's on-close callbacks
+// (bye=1) push a notice to the others when the removal finally runs
+func (g *gen) busyCloseCase(nc, victim, req, req2, to2 int) []string {
+	g.h.Count("case:close-while-front-busy")
+	g.nreq = map[int]int{}
+	last := nc - 1
+	ops := []string{fmt.Sprintf("reset n=%d bye=1", nc)}
+	ops = append(ops, fmt.Sprintf("req c=%d to=0 r=%d/s%d,p%d,m,p%d,r,m,p%d", req, g.id(req), g.h.Pick(5, 10, 21), last, last, last))
+	if req2 != victim {
+		ops = append(ops, fmt.Sprintf("req c=%d to=%d r=%d/s%d,m,r,p%d,m", req2, to2, g.id(req2), g.h.Pick(2, 8, 12), last))
+	}
+	ops = append(ops, fmt.Sprintf("close c=%d", victim), "go ms=30", "settle")
+	return ops
+}
+
+// a client that repeats protocol packets on its working connection (one more HandshakeAck, or a whole second
+// handshake) and whose link is slow for a few packets (each of those writes takes some ms) while a burst and
+// the response are queued for it; a second client is served meanwhile
+func (g *gen) oddClientCase(to, to2, acks int, hs bool, skip, n int) []string {
+	r := g.h.R
+	g.h.Count("case:odd-client")
+	g.h.Count(fmt.Sprintf("odd-client:hs=%v", hs))
+	g.nreq = map[int]int{}
+	ops := []string{"reset n=2 slow=1"}
+	for i := 0; i < acks; i++ {
+		if hs && i == 0 {
+			ops = append(ops, "ack c=0 hs=1")
+		} else {
+			ops = append(ops, "ack c=0")
+		}
+	}
+	ops = append(ops, fmt.Sprintf("lag c=0 n=%d ms=%d skip=%d", n, g.h.Pick(1, 5, 25), skip))
+	ops = append(ops, fmt.Sprintf("req c=0 to=%d r=%d/P0x%d,r,P0x%d,p1", to, g.id(0), 2+r.Intn(8), r.Intn(4)))
+	ops = append(ops, fmt.Sprintf("req c=1 to=%d r=%d/p0,p1,r,p0", to2, g.id(1)))
+	ops = append(ops, "go ms=100", "settle")
+	return ops
+}
+
 // several clients, several services, rounds of requests that start together
 func (g *gen) mixedCase() []string {
 	r := g.h.R
 	g.h.Count("case:mixed")
 	nc := 1 + r.Intn(4)
 	ops := []string{fmt.Sprintf("reset n=%d", nc)}
+	if r.Intn(3) == 0 {
+		ops[0] += " bye=1"
+	}
 	rounds := 1 + r.Intn(3)
 	for ; rounds > 0; rounds-- {
 		nreq := 1 + r.Intn(5)
@@ -379,7 +441,12 @@ func (g *gen) frontLocalCase() []string {
 			a = append(a, "s2")
 		}
 		for k := 0; k < before; k++ {
-			a = append(a, fmt.Sprintf("p%d", c))
+			if r.Intn(6) == 0 {
+				a = append(a, fmt.Sprintf("u%d", c))
+				g.h.Count("front-local:unmarshalable")
+			} else {
+				a = append(a, fmt.Sprintf("p%d", c))
+			}
 		}
 		a = append(a, "r")
 		for k := 0; k < after; k++ {
@@ -482,6 +549,10 @@ func (g *gen) closeCase() []string {
 	g.h.Count("case:close")
 	nc := 2 + r.Intn(2)
 	ops := []string{fmt.Sprintf("reset n=%d", nc)}
+	if r.Intn(2) == 0 {
+		ops[0] += " bye=1"
+		g.h.Count("close:on-close-callback")
+	}
 	victim := r.Intn(nc)
 	for i := 0; i < 2+r.Intn(3); i++ {
 		c := r.Intn(nc)
